@@ -75,6 +75,7 @@ static std::string run_kind(const std::string& op, const std::string& v)
     rlbox::tainted<K, Sbx> t = *p;
     return "OK " + show_int(t.UNSAFE_unverified());
   }
+  if (op == "loadw") return "HARNESS-ERROR loadw arity";
   if (op == "loadcv" || op == "loadcvp" || op == "loadidx" || op == "loadcvr") {
     // the other load paths: element 1 of a two-element guest array holds the value under test
     auto p = sandbox.template malloc_in_sandbox<K>(2);
@@ -106,6 +107,39 @@ static std::string run_kind(const std::string& op, const std::string& v)
     return "OK " + (op == "cbarg" ? g_cb_seen : g_seen);
   }
   return "HARNESS-ERROR op";
+}
+
+// loadw <abi> <kind> <v> <evil> <nth>: the cell holds v; the sandbox rewrites it to evil right before the nth read
+// notification of that cell (read-notification hook of /repo): a conversion that reads the cell more than once is exposed
+static const volatile void* g_watch_cell = nullptr;
+static unsigned char g_watch_bytes[16];
+static size_t g_watch_len = 0;
+static unsigned g_watch_reads = 0, g_watch_nth = 0;
+static void watch_hook(const volatile void* addr)
+{
+  if (addr != g_watch_cell) return;
+  g_watch_reads++;
+  if (g_watch_reads == g_watch_nth) std::memcpy(const_cast<void*>(g_watch_cell), g_watch_bytes, g_watch_len);
+}
+template<typename K>
+static std::string run_loadw(const std::string& v, const std::string& evil, const std::string& nth)
+{
+  auto p = sandbox.template malloc_in_sandbox<K>();
+  G<K> raw = parse_int<G<K>>(v), ev = parse_int<G<K>>(evil);
+  std::memcpy(p.UNSAFE_unverified(), &raw, sizeof(raw));
+  std::memcpy(g_watch_bytes, &ev, sizeof(ev));
+  g_watch_len = sizeof(ev);
+  g_watch_cell = p.UNSAFE_unverified();
+  g_watch_reads = 0;
+  g_watch_nth = static_cast<unsigned>(std::stoul(nth));
+  rlbox::detail::verif_read_hook = watch_hook;
+  std::string out;
+  try {
+    rlbox::tainted<K, Sbx> t = *p;
+    out = "OK " + show_int(t.UNSAFE_unverified());
+  } catch (...) { rlbox::detail::verif_read_hook = nullptr; throw; }
+  rlbox::detail::verif_read_hook = nullptr;
+  return out;
 }
 
 // storemix <abi> <pointee kind> <value kind> <v>: a plain value of one integer type stored through a
@@ -144,7 +178,11 @@ static std::string run_case(const toks_t& t0)
   with_kind(t[2], [&](auto k) {
     using K = typename decltype(k)::type;
     if constexpr (!std::is_same_v<K, wchar_t>) {
-      out = run_kind<K>(t[0], t.size() > 3 ? t[3] : "0");
+      if (t[0] == "loadw" && t.size() > 5) {
+        if constexpr (!std::is_same_v<K, bool>) out = run_loadw<K>(t[3], t[4], t[5]);
+      } else {
+        out = run_kind<K>(t[0], t.size() > 3 ? t[3] : "0");
+      }
     }
   });
   return out;
